@@ -94,7 +94,13 @@ enum POp {
   P_PushBack17 = P_Assign0 + 4,
   P_COUNT
 };
-static const char* kKeys[4] = {"a", "b", "", "c"};
+// "a" and "a\0" are distinct keys that differ only by a trailing NUL byte (a key is bytes + length, never a C string)
+struct KeyLit {
+  const char* p;
+  size_t n;
+  const char* shown;
+};
+static const KeyLit kKeys[4] = {{"a", 1, "a"}, {"b", 1, "b"}, {"", 0, ""}, {"a\0", 2, "a\\0"}};
 static const size_t kReserve[4] = {0, 1, 17, 40};
 // cross operations after the per-address block
 static const int X_COPY0 = NADDR * P_COUNT;             // CopyFrom(X <- Y, copyString): NADDR*NADDR*2
@@ -150,7 +156,7 @@ static size_t node_count(const ref::Value& v) {
 
 static const char kExtJson[] = "{\"x\":[1,\"s\"],\"y\":{\"z\":null}}";
 
-static const char* kInitJson[6] = {nullptr, "{\"a\":1,\"b\":\"s\",\"c\":[1,2]}", "{\"a\":1,\"b\":\"s\",\"c\":[1,2]}", "[{\"a\":1,\"b\":2},[1,\"s\"],\"x\"]",
+static const char* kInitJson[6] = {nullptr, "{\"a\":1,\"b\":\"s\",\"a\\u0000\":[1,2]}", "{\"a\":1,\"b\":\"s\",\"a\\u0000\":[1,2]}", "[{\"a\":1,\"b\":2},[1,\"s\"],\"x\"]",
                                      "{\"a\":{\"a\":1,\"b\":{}},\"b\":[{\"a\":1}]}", nullptr};
 
 template <class Doc, int INIT = 0>
@@ -246,9 +252,9 @@ struct DomSim {
       if (p < P_RemoveMember0) {
         int q = p - P_AddMember0;
         static const char* vn[] = {"1", "\"s\"", "[]", "{}"};
-        return at + "AddMember(\"" + kKeys[q / 8] + "\"," + vn[(q / 2) % 4] + (q % 2 ? ",copyKey)" : ",constKey)");
+        return at + "AddMember(\"" + kKeys[q / 8].shown + "\"," + vn[(q / 2) % 4] + (q % 2 ? ",copyKey)" : ",constKey)");
       }
-      if (p < P_EraseMember0) return at + "RemoveMember(\"" + kKeys[p - P_RemoveMember0] + "\")";
+      if (p < P_EraseMember0) return at + "RemoveMember(\"" + kKeys[p - P_RemoveMember0].shown + "\")";
       static const char* rn[] = {"[0,1)", "[0,n)", "[1,n)", "[n-1,n)", "[n/2,n/2)"};
       if (p < P_MemberReserve0) return at + "EraseMember" + rn[p - P_EraseMember0];
       if (p < P_CreateMap) return at + "MemberReserve(" + std::to_string(kReserve[p - P_MemberReserve0]) + ")";
@@ -410,34 +416,34 @@ struct DomSim {
         }
       } else if (p < P_RemoveMember0) {
         int q = p - P_AddMember0;
-        const char* key = kKeys[q / 8];
+        const std::string key(kKeys[q / 8].p, kKeys[q / 8].n);
         int val = (q / 2) % 4;
         bool copyKey = q % 2;
         typename N::MemberIterator it;
         if (copyKey) {
           // copyKey: the node must own its key afterwards - the caller's buffer is transient
-          size_t kl = std::strlen(key);
+          size_t kl = key.size();
           char* tmpk = (char*)std::malloc(kl ? kl : 1);
-          std::memcpy(tmpk, key, kl);
+          std::memcpy(tmpk, key.data(), kl);
           it = rn.AddMember(StringView(tmpk, kl), leaf_node<N>(val), al, true);
           std::memset(tmpk, '#', kl ? kl : 1);
           std::free(tmpk);
         } else {
-          it = rn.AddMember(key, leaf_node<N>(val), al, false);
+          it = rn.AddMember(StringView(kKeys[q / 8].p, kKeys[q / 8].n), leaf_node<N>(val), al, false);  // constant key: static storage
         }
         mv.o.emplace_back(key, leaf_value(val));
-        if (it != rn.MemberBegin() + (mv.o.size() - 1) || !(it->name == StringView(key)))
+        if (it != rn.MemberBegin() + (mv.o.size() - 1) || !(it->name == StringView(key.data(), key.size())))
           ctx.violation("addmember_result", "dom_addmember_result", tr, "AddMember returned an iterator that is not the new last member");
       } else if (p < P_EraseMember0) {
-        const char* key = kKeys[p - P_RemoveMember0];
-        bool got = rn.RemoveMember(key);
+        const std::string key(kKeys[p - P_RemoveMember0].p, kKeys[p - P_RemoveMember0].n);
+        bool got = rn.RemoveMember(StringView(key.data(), key.size()));
         int fi = -1;
         for (size_t j = 0; j < mv.o.size(); j++)
           if (mv.o[j].first == key) {
             fi = (int)j;
             break;
           }
-        if (got != (fi >= 0)) ctx.violation("removemember_result", "dom_removemember_result", tr, "RemoveMember(\"%s\") returned %d but the model %s the key", key, (int)got, fi >= 0 ? "has" : "lacks");
+        if (got != (fi >= 0)) ctx.violation("removemember_result", "dom_removemember_result", tr, "RemoveMember(\"%s\") returned %d but the model %s the key", kKeys[p - P_RemoveMember0].shown, (int)got, fi >= 0 ? "has" : "lacks");
         if (fi >= 0) {
           if ((size_t)fi != mv.o.size() - 1) mv.o[(size_t)fi] = mv.o.back();
           mv.o.pop_back();
